@@ -39,7 +39,9 @@ structure DecFloat where
 inductive StrtodRes
   | noConv                      -- `end == start`
   | dec (d : DecFloat)
-  | unspec                      -- hexadecimal float, "inf", "nan": outside the model
+  | unspec                      -- hexadecimal float: outside the model
+  | nonfinite                   -- "inf", "infinity", "nan", "nan(...)" in any capitalisation, with or without sign: strtod converts
+                                -- them to an infinity / a NaN, neither of which is a number in any range
   deriving Repr, DecidableEq
 
 def startsWithCI (pat : Bytes) (s : Bytes) : Bool :=
@@ -71,7 +73,7 @@ def afterExp (s : Bytes) : Bytes :=
 def strtod (s0 : Bytes) : StrtodRes :=
   let s2 := afterSign (dropSpaces s0)
   if startsWithCI [48, 120] s2 then .unspec          -- "0x": hex float; left outside the model
-  else if startsWithCI [105, 110, 102] s2 || startsWithCI [110, 97, 110] s2 then .unspec
+  else if startsWithCI [105, 110, 102] s2 || startsWithCI [110, 97, 110] s2 then .nonfinite
   else
     let d1 := (spanDigits s2).1
     let s3 := (spanDigits s2).2
